@@ -241,7 +241,18 @@ let () =
               "a file history without an ownership table comes back with an empty table (hand-made result; Finalize makes a table for every file history)"
             else "decoded result differs from the input beyond clamping in: " ^ d ^ bd_where expected got);
         (* text format *)
-        if xl then count "burndown_text_not_modelled_xl" else
+        let wide m = (match m with r0 :: _ -> List.length r0 > 17000 | [] -> false) in
+        let too_wide = wide b.bd_global || List.exists (fun (_, m) -> wide m) b.bd_files || List.exists wide b.bd_people in
+        if xl then count "burndown_text_not_modelled_xl"
+        else if too_wide then begin
+          (* the list model of PrintMatrix is quadratic in the width of a row: only the shape oracle *)
+          count "burndown_text_shape_oracle_only";
+          (match args (field "text" obs) with
+           | [A "ok"; gs] ->
+               if not (shapes_okb (text_sources b) (List.map matrix (list_of_sx gs))) then
+                 propfail id "burndown text: a matrix is not printed with its declared number of rows and columns"
+           | _ -> if shape then propfail id "burndown text: Serialize(text) fails on a well-formed wide result")
+        end else
         let mt = text_burndown b in
         (match args (field "text" obs) with
          | [A "ok"; gs] ->
@@ -301,11 +312,20 @@ let () =
          | Ok s, [A "ok"; o] ->
              let os = csr_of_sx o in
              if os <> s then mismatch id "DenseToCompressedSparseRowMatrix differs from the model";
-             if List.length m > 20000 then count "csr_decode_oracle_skipped_rows_over_20000"
+             if List.length m > 10500 || (match m with r0 :: _ -> List.length r0 > 17000 | [] -> false)
+             then count "csr_decode_oracle_skipped_over_10500_rows_or_17000_columns"
              else if rect m && csr_to_dense os <> Ok m then
                propfail id "DenseToCompressedSparseRowMatrix: decoding the CSR matrix does not give back the matrix"
          | Panic, [A "panic"] -> ()
          | ms, _ -> mismatch id ("DenseToCompressedSparseRowMatrix outcome differs, model " ^ kind_of ms));
+        let width = (match m with r0 :: _ -> List.length r0 | [] -> 0) in
+        if width > 17000 then begin
+          (* quadratic list model of PrintMatrix: only the shape oracle *)
+          count "print_shape_oracle_only";
+          (match args (field "print" obs) with
+           | [A "ok"; o] -> if not (shape_okb m (matrix o)) then propfail id "PrintMatrix: wrong number of rows or columns"
+           | _ -> propfail id "PrintMatrix fails on a wide matrix")
+        end else
         (match print_matrix m fix, args (field "print" obs) with
          | Ok g, [A "ok"; o] ->
              let og = matrix o in
